@@ -8,8 +8,10 @@ package main
 import (
 	"context"
 	"fmt"
+	"runtime"
 	"strings"
 	"sync"
+	"sync/atomic"
 
 	gg "verif/harness/graphgen"
 	"verif/harness/lib"
@@ -18,6 +20,11 @@ import (
 // genFanout: an any-predecessor graph around a hub (START or a node) with several plain edges AND a branch.
 func genFanout(r *lib.Rng) *gg.Case {
 	plain := []int{3, 3, 5, 6, 7, 2, 4}[r.Intn(7)]
+	if r.Chance(1, 4) {
+		// a wide hub (round 5): the more a compiled graph has to set up for a run, the longer two runs that start
+		// together can get into each other's way (first-calls phase)
+		plain = []int{10, 16, 24}[r.Intn(3)]
+	}
 	nb := r.Range(2, 3) // branch targets
 	hubIsStart := r.Chance(1, 3)
 	next := uint64(2)
@@ -82,6 +89,18 @@ func genFanout(r *lib.Rng) *gg.Case {
 	c := &gg.Case{Forest: []gg.Graph{{Front: "graph", Mode: "pregel", Nodes: nodes}}}
 	c.Input = gg.MapOf(gg.KV{Key: 900 + uint64(r.Intn(3)), V: gg.Atom(uint64(r.Intn(5)))})
 	return c
+}
+
+// wideHub: some node has >= 10 plain edges
+func wideHub(c *gg.Case) bool {
+	for gi := range c.Forest {
+		for ni := range c.Forest[gi].Nodes {
+			if len(c.Forest[gi].Nodes[ni].DSucc) >= 10 {
+				return true
+			}
+		}
+	}
+	return false
 }
 
 // hubShape: some node of an any-predecessor graph has >= 3 plain edges and a branch
@@ -229,3 +248,118 @@ func concurrentPhase(c *gg.Case, goroutines, perG int) (string, string) {
 	}
 	return "", ""
 }
+
+// expectations: what the superstep semantics gives for the nv input variants (ok = false: outside the oracle's scope)
+func expectations(c *gg.Case, nv int) ([]*gg.Val, []*expect, bool) {
+	inputs := make([]*gg.Val, nv)
+	want := make([]*expect, nv)
+	for j := 0; j < nv; j++ {
+		inputs[j] = variant(c.Input, j)
+		s := &spec{c: &gg.Case{Forest: c.Forest, Input: inputs[j], Fails: c.Fails}}
+		out, f := s.runGraph(0, nil, inputs[j])
+		switch {
+		case s.unsup:
+			return nil, nil, false
+		case f == nil:
+			want[j] = &expect{done: true, result: out}
+		default:
+			want[j] = &expect{classes: f.classes}
+		}
+	}
+	return inputs, want, true
+}
+
+// firstCallsPhase (round 5): the statement of C01 is about every run, the FIRST runs of a freshly compiled graph
+// included. Whatever a compiled object sets up lazily at its first run must not be seen half-done by a run that
+// starts at the same moment. `rounds` times the case is built and compiled anew and `goroutines` goroutines,
+// released together by a spinning barrier, make the first calls at once (two each, on input variants of
+// different sizes); every result is compared with the oracle's evaluation of that input.
+var stagger = []int{0, 40, 150, 400}
+
+func firstCallsPhase(c *gg.Case, rounds, goroutines int) (string, string) {
+	ctx := context.Background()
+	const nv = 4
+	inputs, want, ok := expectations(c, nv)
+	if !ok {
+		return "", ""
+	}
+	var mu sync.Mutex
+	var bad string
+	for r := 0; r < rounds && bad == ""; r++ {
+		var bt *gg.Built
+		var berr error
+		if p := lib.Recover(func() { bt, berr = gg.Build(ctx, c, gg.BuildOpts{}) }); p != nil || berr != nil {
+			return "", "" // the sequential run already reported build problems
+		}
+		var ready, gate int32
+		var wg sync.WaitGroup
+		for gi := 0; gi < goroutines; gi++ {
+			wg.Add(1)
+			go func(gi int) {
+				defer wg.Done()
+				ins := [2]gg.M{inputs[(gi+r)%nv].ToGo().(gg.M), inputs[(gi+r+1)%nv].ToGo().(gg.M)}
+				atomic.AddInt32(&ready, 1)
+				for spins := 0; atomic.LoadInt32(&gate) == 0; spins++ {
+					if spins > 200 {
+						runtime_Gosched()
+					}
+				}
+				// round 0, 4, 8, ...: all at once; otherwise staggered by a few hundred nanoseconds per goroutine, so
+				// that a late starter meets the first one in the middle of whatever the first run sets up
+				for d := 0; d < gi*stagger[r%len(stagger)]; d++ {
+					atomic.LoadInt32(&gate)
+				}
+				for k := 0; k < 2; k++ {
+					j := (gi + r + k) % nv
+					var out gg.M
+					var err error
+					p := lib.Recover(func() { out, err = bt.R.Invoke(ctx, ins[k]) })
+					o := &gg.Obs{}
+					switch {
+					case p != nil:
+						o.Class, o.ErrMsg = "panic", fmt.Sprint(p)
+					case err != nil:
+						o.Class, o.ErrClass, o.ErrMsg = "fail", gg.ClassifyErr(err), err.Error()
+					default:
+						o.Class, o.Result = "done", gg.FromGo(out)
+					}
+					if !want[j].matches(o) {
+						mu.Lock()
+						if bad == "" {
+							got := o.ErrMsg
+							if o.Class == "done" {
+								got = o.Result.String()
+							}
+							if len(got) > 300 {
+								got = got[:300] + "..."
+							}
+							bad = fmt.Sprintf("one of the FIRST runs of a freshly compiled graph, started together with %d others, on input %s gave %s (%s); the superstep semantics of that input gives %s",
+								goroutines-1, inputs[j].String(), o.Class, got, want[j].String())
+						}
+						mu.Unlock()
+						return
+					}
+				}
+			}(gi)
+		}
+		for spins := 0; atomic.LoadInt32(&ready) < int32(goroutines); spins++ {
+			if spins > 200 {
+				runtime_Gosched()
+			}
+		}
+		atomic.StoreInt32(&gate, 1)
+		wg.Wait()
+		if bt.Rec.IsUnbounded() {
+			return "in one of the first runs of a freshly compiled graph " + gg.UnboundedMsg, "c01:first-calls"
+		}
+		if bt.Rec.Over {
+			return "", "" // a value outgrew the size budget of the harness lambdas: no verdict
+		}
+	}
+	if bad != "" {
+		return bad, "c01:first-calls"
+	}
+	return "", ""
+}
+
+func runtime_Gosched() { runtime.Gosched() }
